@@ -16,6 +16,11 @@ CLAIMED = {
          "Body trees (attributes, multi-line/one-line/empty blocks, nesting <= 2, 0..2 labels in every spelling of the escape table: bare, quoted, \\u/\\U escapes, escaped template introducers, multi-byte) x all renderings with <= 1 (quick) / <= 2 (thorough) deviations from canonical layout among indentation, token gaps, inline and line comments in every legal position, blank lines, CRLF, BOM, missing final newline. TLC checks WellFormed/Balanced on the spec; the replayer checks acceptance iff no duplicate attribute and exact structure.",
          "Identifier alphabet {a,b,t}; label alphabet by representative spellings; layout deviations bounded by MaxL.",
          "DESIGN.md §4 C02"),
+ "C03": ("spec/HclDec.tla (MC_Dec)",
+         "TLC enumerates (decoding spec, body) pairs with the JsonExpressible predicate; each pair is rendered in native syntax and 4 admissible JSON encodings and decoded by the real hcldec; results compared differentially (and against HclDec.tla via C08)",
+         "All well-formed spec trees (17 kinds) of depth <= 1 x bodies <= 2 items and depth <= 2 x bodies <= 1 item (quick; thorough: depth 2 x 2 items, depth 1 x 3 items); JSON forms: duplicate property names, arrays of block bodies, top-level array of objects, merged label objects with // comments. Same error-ness, RawEquals decoded values, same Content projection.",
+         "Only JSON-expressible bodies (label counts as requested by the spec) are compared; attribute values are literals of every JSON-expressible type.",
+         "DESIGN.md §4 C03"),
  "C04": ("spec/HclBody.tla (MC_C04)",
          "TLC enumerates (body, disjoint schema split) pairs with the model's per-step prediction and checks the C04 laws (TwoStep, ExactlyOnce, Accounted) on the spec; each pair is replayed on native, JSON, merged and dynblock-expanded bodies and compared by the laws and against the model",
          "All bodies of <= 3 (quick) / 4 (thorough) items x all disjoint splits of all well-formed schemas into 2 (quick) / 2..3 (thorough) parts; on each of the four hcl.Body implementations built from the same abstract items: no item returned twice, chain == one-step union (attributes, blocks, error kinds), every item returned or reported, remaining body holds exactly the unmatched items, and step-by-step agreement with HclBody.tla.",
@@ -36,6 +41,11 @@ CLAIMED = {
          "TLC checks DependsOnlyOnFreeVars on the specified semantics; for every AST the reported roots R must make evaluation in scope|R, and in scopes with every unreported variable changed or nulled, identical in value and diagnostics; iterator names must not be reported.",
          "hcldec.Variables and the dynblock walkers are not yet covered (planned with E2).",
          "DESIGN.md §4 C07"),
+ "C08": ("spec/HclDec.tla (MC_Dec)",
+         "TLC enumerates (decoding spec, body) pairs with the specification's ImpliedType and Decode result, checking TypeConforms on the model; each pair is decoded by the real hcldec (Decode and PartialDecode): no panic, type conformance, implied type, error-ness and value against the model",
+         "All well-formed spec trees over all spec kinds (attr, literal, block, blocklist/tuple/set, blockmap/object with 1..2 labels, blockattrs, label, default, object, tuple, transform, validate, refine) x conforming and perturbed bodies (missing required, extraneous items, wrong literal types, wrong label counts, zero/one/many blocks, nested blocks).",
+         "Documented preconditions respected (see DESIGN); results needing unification of differing element types are oom in the model (type relation still checked on the real output).",
+         "DESIGN.md §4 C08"),
  "C12": ("spec/HclWriteTree.tla",
          "TLC exhaustive enumeration of writer-API edit histories (HclWriteTree.tla), each history replayed into hclwrite and compared with the model's predicted file",
          "Every history of <= 3 (quick) / <= 4 (thorough) writer calls from an empty and a parsed-with-comments file is enumerated by TLC; the model's invariants (unique attribute names, forest, untouched items keep tokens) are checked on the spec, and every enumerated history is executed against hclwrite: no panic, serialised bytes parse, re-parsed structure equals the model, read accessors (through the root and through retained handles) equal the model, untouched original items keep their comment/token lines.",
@@ -87,6 +97,7 @@ def main():
         },
         "engines": [
             {"name": "HclWriteTree", "path": "spec/HclWriteTree.tla", "serves_properties": ["C12"], "kind_free_text": "TLA+ edit-history machine of the hclwrite tree; TLC state dump streamed to a Go replayer"},
+            {"name": "HclDec", "path": "spec/HclDec.tla", "serves_properties": ["C03", "C08"], "kind_free_text": "TLA+ model of hcldec spec kinds: ImpliedType, implied schema, Decode, JSON expressibility; generator MC_Dec; replayers harness/dec, c03, c08"},
             {"name": "HclStruct", "path": "spec/HclStruct.tla", "serves_properties": ["C02"], "kind_free_text": "TLA+ layout machine writing native-syntax files with their abstract tree; TLC dump replayed into hclsyntax.ParseConfig"},
             {"name": "HclBody", "path": "spec/HclBody.tla", "serves_properties": ["C04"], "kind_free_text": "TLA+ machine of schema-driven body processing (PartialContent/Content with hidden sets); TLC dump replayed on four hcl.Body implementations"},
             {"name": "E1 HclValues+HclExpr+MC_E1", "path": "spec/HclExpr.tla", "serves_properties": ["C01", "C05", "C06", "C07", "C19", "C20"], "kind_free_text": "TLA+ denotational semantics of the expression/template language with a production-per-action AST generator; TLC dump streamed to Go replayers (harness/e1, c01, c05, c06, c07, c19)"},
